@@ -10,9 +10,9 @@ one internal transaction of that concrete machine *is* the buffer of `C27.lean`:
 * `C27_modify_refines`: an accepted `Txn.modify` is `Buf.add` on `(pendingWrites, duplicateWrites)`;
 * `C27_commit_refines`: a commit that reaches the write path applies `Buf.emit`, finalised by
   `finEnt` (version resolution, `bitTxn`, value-pointer bit), to the memtable;
-* `C27_commit_last_wins`: hence, when the transaction received exactly the operations `ops`
-  and has no clash, every read of the memtable after the commit equals the read after applying
-  `ops` one by one in issue order.
+* `C27_commit_last_wins`: hence, when the transaction received exactly the operations `ops`,
+  every read of the memtable after the commit equals the read after applying `ops` one by one
+  in issue order.
 -/
 namespace Badger
 
@@ -58,7 +58,7 @@ theorem C27_modify_refused {d : Db} {id : Nat} {t : TxnM} (e : Ent) (h : d.findT
   | some err' => rfl
   | none => rw [hc] at hr; cases hr
 
-/-- a commit that reaches the write path applies `Buf.emit` (pending, then duplicates), finalised,
+/-- a commit that reaches the write path applies `Buf.emit` (duplicates, then pending), finalised,
     to the memtable, in that order -/
 theorem C27_commit_refines {d : Db} {id : Nat} {t : TxnM} (mts : Nat) (h : d.findTxn id = some t)
     (hg : commitGoes d t mts = true) :
@@ -67,45 +67,19 @@ theorem C27_commit_refines {d : Db} {id : Nat} {t : TxnM} (mts : Nat) (h : d.fin
   rw [(commit_goes mts h hg).2.1]
   rfl
 
-/-- past `commitPrecheck` (which looks at `pendingWrites` only), `Txn.CommitWith` of the batch
-    is `Db.commit` -/
-theorem commitWith_eq_commit {d : Db} {id cts : Nat} {t : TxnM} (h : d.findTxn id = some t)
-    (hz : (t.pending.all (·.ver == 0) && d.opts.managed && cts == 0) = false) :
-    d.commitWith id cts = d.commit id cts := by
-  unfold Db.commitWith
-  rw [h]
-  dsimp only
-  rw [if_neg]
-  intro hc
-  simp only [Bool.and_eq_true] at hc
-  obtain ⟨⟨⟨_, hp⟩, hm⟩, hc0⟩ := hc
-  rw [hp, hm, hc0] at hz
-  cases hz
-
 /-- **one internal transaction of the concrete machine**: the transaction received exactly the
     operations `ops` (its buffer is `Buf.addAll {} ops` — by `C27_modify_refines` that is what
-    a sequence of accepted `modify` calls produces), it has no clash at its commit timestamp and
-    the commit reaches the write path: then every read of the memtable equals the read after
-    applying the issued operations one by one, in issue order (later ones winning). -/
+    a sequence of accepted `modify` calls produces) and the commit reaches the write path: then
+    every read of the memtable equals the read after applying the issued operations one by one,
+    in issue order (later ones winning). No side condition. -/
 theorem C27_commit_last_wins {d : Db} {id : Nat} {t : TxnM} (mts : Nat) (ops : List Ent)
     (h : d.findTxn id = some t) (hg : commitGoes d t mts = true) (hb : t.buf = Buf.addAll {} ops)
-    (hnc : (Buf.addAll {} ops).NoClash (commitTsOf d mts)) (k : Bytes) (ts : Nat) :
+    (k : Bytes) (ts : Nat) :
     newestLE (d.commit id mts).1.lsm.mem k ts =
       newestLE (applyWrites d.lsm.mem (ops.map (finEnt d (keepTogetherOf t) (commitTsOf d mts)))) k ts := by
   rw [C27_commit_refines mts h hg, hb, newestLE_applyWrites, newestLE_applyWrites, newestLE_append,
     newestLE_append]
   congr 1
-  exact C27_buf_last_wins (finEnt_resolves d _ _) ops hnc k ts
-
-/-- the same through the batch's `CommitWith` -/
-theorem C27_commitWith_last_wins {d : Db} {id : Nat} {t : TxnM} (cts : Nat) (ops : List Ent)
-    (h : d.findTxn id = some t) (hg : commitGoes d t cts = true)
-    (hz : (t.pending.all (·.ver == 0) && d.opts.managed && cts == 0) = false)
-    (hb : t.buf = Buf.addAll {} ops)
-    (hnc : (Buf.addAll {} ops).NoClash (commitTsOf d cts)) (k : Bytes) (ts : Nat) :
-    newestLE (d.commitWith id cts).1.lsm.mem k ts =
-      newestLE (applyWrites d.lsm.mem (ops.map (finEnt d (keepTogetherOf t) (commitTsOf d cts)))) k ts := by
-  rw [commitWith_eq_commit h hz]
-  exact C27_commit_last_wins cts ops h hg hb hnc k ts
+  exact C27_buf_last_wins (finEnt_resolves d _ _) ops k ts
 
 end Badger
